@@ -90,11 +90,16 @@ func runScenario(sc *Scenario, replay []simrt.Decision) *outcome {
 	cfg := simrt.Config{MaxSteps: steps, Strategy: sc.Strategy.Build(), Replay: replay, Record: true, HB: true,
 		OnStep: w.onStep, SharedPkg: func(string) bool { return true }}
 	simrt.EnableShared(false)
-	if sc.RefFirst {
+	// The id counter is only ever moved FORWARD to the scenario's starting value (skipping ids is
+	// always legal; moving it back would hand out ids again that generators with private state -
+	// blocks reserved earlier - still own, and raise a false alarm on a correct generator).
+	if common.VerifGetXid() < sc.XidStart {
 		common.VerifSetXid(sc.XidStart)
+	}
+	w.xid0 = common.VerifGetXid()
+	if sc.RefFirst {
 		w.reference()
 	}
-	common.VerifSetXid(sc.XidStart)
 	sim := simrt.New(cfg)
 	w.sim = sim
 	w.concurrent = true
